@@ -365,6 +365,18 @@ class TAPParser:
     state = _MAIN
     version = 12
 
+    @staticmethod
+    def parse_number(text: T.Optional[str], default: int) -> T.Optional[int]:
+        # Python refuses to convert very long numbers from or to text (see
+        # sys.set_int_max_str_digits()).  Such a number can be neither read
+        # nor reported: it is invalid.
+        try:
+            num = default if text is None else int(text)
+            str(num)
+        except ValueError:
+            return None
+        return num
+
     def parse_test(self, ok: bool, num: int, name: str, directive: T.Optional[str], explanation: T.Optional[str]) -> \
             T.Generator[T.Union['TAPParser.Test', 'TAPParser.Error'], None, None]:
         name = name.strip()
@@ -427,11 +439,15 @@ class TAPParser:
 
             m = self._RE_TEST.match(line)
             if m:
+                num = self.parse_number(m.group(2), self.last_test + 1)
+                if num is None:
+                    yield self.Error('invalid test number')
+                    return
                 if self.plan and self.plan.late and not self.found_late_test:
                     yield self.Error('unexpected test after late plan')
                     self.found_late_test = True
                 self.num_tests += 1
-                self.last_test = self.last_test + 1 if m.group(2) is None else int(m.group(2))
+                self.last_test = num
                 self.highest_test = max(self.highest_test, self.last_test)
                 if self.plan and self.last_test > self.plan.num_tests:
                     yield self.Error('test number exceeds maximum specified in test plan')
@@ -445,7 +461,10 @@ class TAPParser:
                 if self.plan:
                     yield self.Error('more than one plan found')
                 else:
-                    num_tests = int(m.group(1))
+                    num_tests = self.parse_number(m.group(1), 0)
+                    if num_tests is None:
+                        yield self.Error('invalid number of tests in plan')
+                        return
                     skipped = num_tests == 0
                     if m.group(2):
                         if m.group(2).upper().startswith('SKIP'):
@@ -471,7 +490,11 @@ class TAPParser:
                 if self.lineno != 1:
                     yield self.Error('version number must be on the first line')
                     return
-                self.version = int(m.group(1))
+                version = self.parse_number(m.group(1), 0)
+                if version is None:
+                    yield self.Error('invalid version number')
+                    return
+                self.version = version
                 if self.version < 13:
                     yield self.Error('version number should be at least 13')
                 else:
